@@ -871,7 +871,12 @@ pub fn gen_scenario(rng: &mut Rng, profile: Profile, tier: Tier) -> CursorScn {
         };
     }
     let mut steer: Vec<Vec<f64>> = funcs.iter().map(steering_ends).collect();
-    let nclients = if crowd {
+    // a very long history on a single evaluator (16-bit counters, "every N-th" paths); in the C16
+    // profile its fault positions are sampled (see C16_LONG)
+    let ultra = rng.chance(1, if profile == Profile::Mixed { 40_000 } else { 100_000 });
+    let nclients = if ultra {
+        1
+    } else if crowd {
         rng.usize_in(4, 9)
     } else {
         match rng.below(10) {
@@ -888,7 +893,7 @@ pub fn gen_scenario(rng: &mut Rng, profile: Profile, tier: Tier) -> CursorScn {
             Profile::Evaluators => ClientKind::Eval,
             Profile::Streams => ClientKind::Stream,
             Profile::Mixed => {
-                if rng.chance(3, 4) {
+                if ultra || rng.chance(3, 4) {
                     ClientKind::Eval
                 } else {
                     ClientKind::Stream
@@ -920,18 +925,21 @@ pub fn gen_scenario(rng: &mut Rng, profile: Profile, tier: Tier) -> CursorScn {
             if rng.chance(1, 2000) {
                 nev = rng.usize_in(60, 250);
             }
+            if ultra {
+                nev = rng.usize_in(170_000, 400_000);
+            }
         }
         _ => {
             if rng.chance(1, 100) {
                 nev = rng.usize_in(100, 1500);
             }
             // a handful of very long histories (16-bit query counters wrap at 65 536)
-            if rng.chance(1, 100_000) {
-                nev = rng.usize_in(20_000, 400_000);
+            if ultra {
+                nev = if profile == Profile::Evaluators { rng.usize_in(170_000, 400_000) } else { rng.usize_in(20_000, 400_000) };
             }
         }
     }
-    let restart_rate = *rng.pick(&[0u64, 0, 1, 2, 5]);
+    let restart_rate = if ultra { 0 } else { *rng.pick(&[0u64, 0, 1, 2, 5]) };
     // bursts of the same argument repeated many times
     let burst_rate = *rng.pick(&[0u64, 0, 0, 1, 4]);
     let mut prev: Vec<Option<f64>> = vec![None; clients.len()];
@@ -939,7 +947,7 @@ pub fn gen_scenario(rng: &mut Rng, profile: Profile, tier: Tier) -> CursorScn {
     let mut runmax: Vec<Option<f64>> = vec![None; clients.len()];
     let mut events = Vec::with_capacity(nev + 4);
     // in-place changes of a function between client lifetimes (same storage, same addresses)
-    let mutate_rate = *rng.pick(&[0u64, 0, 0, 1, 3]);
+    let mutate_rate = if ultra { 0 } else { *rng.pick(&[0u64, 0, 0, 1, 3]) };
     while events.len() < nev {
         let c = rng.usize_in(0, clients.len() - 1);
         if rng.below(40) < mutate_rate {
@@ -1041,7 +1049,7 @@ pub fn gen_scenario(rng: &mut Rng, profile: Profile, tier: Tier) -> CursorScn {
     }
     // whole-sequence consumptions (streams profile only)
     let mut batches = Vec::new();
-    if profile == Profile::Streams {
+    if profile == Profile::Streams || (profile == Profile::Mixed && rng.chance(1, 4)) {
         let nb = *rng.pick(&[0usize, 0, 1, 1, 2]);
         for _ in 0..nb {
             let func = rng.usize_in(0, nfuncs - 1);
@@ -1918,8 +1926,21 @@ fn c16_fault_values(_tier: Tier) -> Vec<f64> {
 
 /// Enumerate the single-fault variants of a base scenario: every position, every
 /// fault value, every client (a NaN query for evaluators, a NaN feed+pull for streams).
+/// Histories longer than this are "long": fault positions are sampled (start, middle, end), not enumerated.
+const C16_LONG: usize = 2000;
+
+/// Insertion positions of the injected fault: every position 0..=len, or five sampled ones for long histories.
+fn c16_positions(base: &CursorScn) -> Vec<usize> {
+    let n = base.events.len();
+    if n <= C16_LONG {
+        (0..=n).collect()
+    } else {
+        vec![0, 1, n / 2, n - 1, n]
+    }
+}
+
 fn c16_variant_count(base: &CursorScn, tier: Tier) -> u64 {
-    (base.events.len() as u64 + 1) * c16_fault_values(tier).len() as u64 * base.clients.len() as u64
+    c16_positions(base).len() as u64 * c16_fault_values(tier).len() as u64 * base.clients.len() as u64
 }
 
 fn c16_variant(base: &CursorScn, sub: u64, tier: Tier) -> CursorScn {
@@ -1944,7 +1965,7 @@ fn c16_variant(base: &CursorScn, sub: u64, tier: Tier) -> CursorScn {
     };
     let mut s = base.clone();
     if sub < single {
-        let pos = (sub / (nv * nc)) as usize;
+        let pos = c16_positions(base)[(sub / (nv * nc)) as usize];
         let c = ((sub / nv) % nc) as usize;
         let x = vals[(sub % nv) as usize];
         insert(&mut s, pos, c, x);
@@ -2044,7 +2065,7 @@ impl World for C16 {
         check_plain(scn, Judge { evals: true, streams: false, build: true, battery: true }, cov, prog)
     }
     fn rule(&self) -> String {
-        format!("Each evaluation is one seeded fault-free base history (1-16 events over evaluators and evaluate_v streams, as in C03/C12) plus ALL its single-fault variants: a NaN query (4 bit patterns: NAN, -NAN, signalling pattern, payload) or a +-inf query inserted at every position 0..=len on every client; thorough also enumerates all position pairs of (NaN, then NaN | restart | +inf | -inf) for bases of <= 8 events. Every library call runs under catch_unwind; every non-NaN evaluator answer in every variant must equal Piecewise::evaluate bit for bit. counters.faulted_executions is the number of faulted histories executed. Once per base history an operation battery (piece-, segment- and piecewise-level clone, ==, abs_diff_eq, relative_eq, translate, *, *=, -, +, derivative, indefinite, integral, integral_iter(_ref) as they exist for the piece type) runs on every function under the crash monitor (counters.ops_battery_operations); counters.op_* count the library constructors and operators used as function sources. {ORDER_RULE} (counted over the faulted histories, the NaN being one more rank)")
+        format!("Each evaluation is one seeded fault-free base history (1-16 events over evaluators and evaluate_v streams, as in C03/C12) plus ALL its single-fault variants: a NaN query (4 bit patterns: NAN, -NAN, signalling pattern, payload) or a +-inf query inserted at every position 0..=len on every client (five sampled positions for the few base histories longer than 2000 events); thorough also enumerates all position pairs of (NaN, then NaN | restart | +inf | -inf) for bases of <= 8 events. Every library call runs under catch_unwind; every non-NaN evaluator answer in every variant must equal Piecewise::evaluate bit for bit. counters.faulted_executions is the number of faulted histories executed. Once per base history an operation battery (piece-, segment- and piecewise-level clone, ==, abs_diff_eq, relative_eq, translate, *, *=, -, +, derivative, indefinite, integral, integral_iter(_ref) as they exist for the piece type) runs on every function under the crash monitor (counters.ops_battery_operations); counters.op_* count the library constructors and operators used as function sources. {ORDER_RULE} (counted over the faulted histories, the NaN being one more rank)")
     }
     fn assumptions(&self) -> Vec<String> {
         let mut a = common_assumptions();
